@@ -37,7 +37,8 @@ enum Kind {
     CLOSE_NTH,     // the n-th close() on a descriptor of the output really closes it but reports err
     FWRITE_NTH,    // the n-th fwrite() on the output stream fails (returns 0, error flag set, errno err)
     FFLUSH_NTH,    // the n-th fflush() on the output stream fails (EOF, error flag set, errno err)
-    FCLOSE_NTH     // the n-th fclose() on the output stream closes it but reports EOF/err
+    FCLOSE_NTH,    // the n-th fclose() on the output stream closes it but reports EOF/err
+    FWRITE_OFF     // the fwrite() reaching byte offset n of the stream: partial up to n, short count, error flag, errno err
 };
 
 struct Plan {
@@ -184,8 +185,18 @@ size_t fwrite(const void* p, size_t size, size_t n, FILE* f) {
     if (g_plan.kind == FWRITE_NTH && idx == g_plan.n) {
         bump(s->injected); f->_flags |= 0x20 /* _IO_ERR_SEEN: what a failing fwrite leaves behind */; errno = g_plan.err; return 0;
     }
+    if (g_plan.kind == FWRITE_OFF && size > 0 && s->bytes + static_cast<long>(size * n) > g_plan.n) {
+        // what stdio reports when the device fills up at offset n: the bytes before n are accepted, the call
+        // returns a short count with the stream's error flag set (a stream in error state keeps failing)
+        const long part = g_plan.n > s->bytes ? g_plan.n - s->bytes : 0;
+        const size_t done = part > 0 ? fn(p, 1, static_cast<size_t>(part), f) : 0;
+        __atomic_add_fetch(&s->bytes, static_cast<long>(done), __ATOMIC_SEQ_CST);
+        bump(s->injected); f->_flags |= 0x20; errno = g_plan.err;
+        return done / size;
+    }
     const size_t r = fn(p, size, n, f);
     if (r < n) { const int e = errno; note_natural(e); errno = e; }
+    __atomic_add_fetch(&s->bytes, static_cast<long>(r * size), __ATOMIC_SEQ_CST);
     return r;
 }
 
